@@ -333,6 +333,19 @@ for nm, b in (("grpc_web", "application/grpc-web, no Accept"), ("grpc_web_proto"
       bounds="content-type/accept: " + b + "; method: 5 standard methods (symbolic); version: 4 (symbolic)",
       may_be_uncovered=(["other over HTTP/2 (pass through)", "other over HTTP/1 (400)"] if nm.startswith("grpc_web") else ["POST grpc-web", "non-POST grpc-web (405)"]))
 
+for nm, b_ in (("st_timeout_direct", "TimeoutExpired itself"), ("st_timeout_nested", "an error whose source() is a TimeoutExpired"),
+               ("st_chain_unrelated", "an error whose source() is unrelated")):
+    H(nm, ["C09", "C04"], "core", *ST, cap_s=900 if nm == "st_timeout_direct" else 3600, tier="quick" if nm == "st_timeout_direct" else "thorough",
+      optional=(nm != "st_timeout_direct"),
+      stubs=["core::fmt::write stubbed (returns Ok without writing): message texts are outside the claim"],
+      obligation="G5: find_status_in_source_chain: a TimeoutExpired at the top of or one level down an error source chain => CANCELLED; "
+                 "unrelated errors => no status",
+      functions=["tonic::status::find_status_in_source_chain"], bounds=b_)
+H("st_connect_error_unavailable", ["C14", "C04"], "core", *ST, cap_s=900,
+  stubs=["core::fmt::write stubbed (returns Ok without writing): message texts are outside the claim"],
+  obligation="ConnectError in an error chain => UNAVAILABLE (the status a call gets while no connection can be made)",
+  functions=["tonic::status::find_status_in_source_chain"], bounds="one ConnectError wrapping an arbitrary cause")
+
 
 def select(pid, tier, seed=0):
     out = []
